@@ -2,19 +2,44 @@
 # Runs the repository's pinned baseline (guard OFF) and checks that every test in
 # BASELINE.json:stable_pass still passes.  Exit 0 iff none of them regressed.
 # Optional argument: another checkout of the repository (used for seeded changes in scratch copies).
+# Tests that fail in the full run are re-run once on their own (the HTTP handler tests bind a fixed port and
+# collide when several baselines run at the same time on this machine); only a test failing both times counts.
 REPO_DIR=${1:-/repo}
 OUT=$(mktemp -d)
 cd "$REPO_DIR" && env -u PYDCOP_VERIF PYTHONPATH="$REPO_DIR" timeout -k 5 900 /venv/bin/python -m pytest -ra -q -p no:cacheprovider --timeout=900 \
    --continue-on-collection-errors --junitxml=$OUT/j.xml > $OUT/log 2>&1
 tail -1 $OUT/log
-/venv/bin/python - "$OUT/j.xml" <<'PY'
-import json, sys, xml.etree.ElementTree as ET
+/venv/bin/python - "$OUT/j.xml" "$REPO_DIR" <<'PY'
+import json, os, subprocess, sys, xml.etree.ElementTree as ET
 base = set(json.load(open('/root/.vp/BASELINE.json'))['stable_pass'])
-ok = set()
-for tc in ET.parse(sys.argv[1]).getroot().iter('testcase'):
-    if not any(c.tag in ('failure', 'error', 'skipped') for c in tc):
-        ok.add(tc.get('classname') + '::' + tc.get('name'))
+repo = sys.argv[2]
+def passed(xml):
+    ok = set()
+    for tc in ET.parse(xml).getroot().iter('testcase'):
+        if not any(c.tag in ('failure', 'error', 'skipped') for c in tc):
+            ok.add(tc.get('classname') + '::' + tc.get('name'))
+    return ok
+ok = passed(sys.argv[1])
 missing = sorted(base - ok)
+if missing and len(missing) <= 20:
+    ids = []
+    for m in missing:
+        cls, name = m.split('::')
+        parts = cls.split('.')
+        for k in range(len(parts), 0, -1):
+            f = os.path.join(repo, *parts[:k]) + '.py'
+            if os.path.exists(f):
+                ids.append('::'.join([os.path.join(*parts[:k]) + '.py'] + parts[k:] + [name]))
+                break
+    x2 = sys.argv[1] + '.retry.xml'
+    env = dict(os.environ, PYTHONPATH=repo); env.pop('PYDCOP_VERIF', None)
+    subprocess.run(['/venv/bin/python', '-m', 'pytest', '-q', '-p', 'no:cacheprovider', '--timeout=900', '--junitxml=' + x2] + ids,
+                   cwd=repo, env=env, stdout=subprocess.DEVNULL, stderr=subprocess.DEVNULL)
+    if os.path.exists(x2):
+        again = passed(x2)
+        print('re-ran %d failing baseline tests alone: %d pass' % (len(ids), len(again & set(missing))))
+        ok |= again
+        missing = sorted(base - ok)
 print('baseline stable_pass:', len(base), 'now passing of those:', len(base & ok), 'total passing:', len(ok))
 for m in missing: print('REGRESSED', m)
 sys.exit(1 if missing else 0)
